@@ -588,7 +588,9 @@ void compare_stats(outcome_t& out, ctx_t& ctx, const std::string& where, const n
     const auto stdev = std::sqrt(var);
     // the one-pass formula the statistic is defined by cancels: its variance carries an absolute rounding error of
     // ~eps * mean(x^2); a value inside that band (including a NaN from a slightly negative variance) is "equal up to rounding"
-    const auto band = n > 1 ? 1e3 * deps * static_cast<double>(sum2 / dn / (dn - 1.0L)) : 0.0;
+    //   (+ the underflow quantum: squares of values below ~1e-154 are sub-normal doubles and carry an ABSOLUTE error of
+    //   denorm_min / 2 each, e.g. losses of 1e-161 whose squares keep 5 bits)
+    const auto band = n > 1 ? 1e3 * deps * static_cast<double>(sum2 / dn / (dn - 1.0L)) + 1e3 * std::numeric_limits<double>::denorm_min() : 0.0;
     auto       cs   = closeness(got.m_stdev, stdev, tol(stdev));
     if (cs != cmp_t::ok)
     {
@@ -973,12 +975,57 @@ verdict_t check_mcase(const mcase_t& c, ctx_t& ctx)
                     const auto& idx = isplit == 0 ? split.first : split.second;
                     const auto  p   = gboost ? predict_boosted(dataset, idx, gres->m_bias, gres->m_wlearners) : predict_linear(dataset, idx, lres->m_weights, lres->m_bias);
                     const auto  v   = evaluate_preds(dataset, idx, *s.loss, p, s.target_kind);
-                    if (!p.finite() || !all_finite(v.errors) || !all_finite(v.losses))
+                    // a fold model whose predictions are astronomically large (a scaling step that diverged on separable samples:
+                    // observed scale 1.5e88, predictions 8e86) is a diverged fit like the non-finite ones: at such magnitudes the
+                    // rounding of the weak learner's own coefficients (hinge: beta x - beta t at x == t) flips classes
+                    bool diverged = false;
+                    for (tensor_size_t k = 0; k < p.outputs.size(); ++k)
+                    {
+                        diverged = diverged || std::fabs(p.outputs(k)) > 1e30;
+                    }
+                    ctx.label_if(diverged, "fold-model-with-predictions-above-1e30(diverged)");
+                    if (!p.finite() || diverged || !all_finite(v.errors) || !all_finite(v.losses))
                     {
                         non_finite = true;
                         continue;
                     }
                     any_fragile       = any_fragile || v.fragile;
+                    if (std::getenv("VERIF_C11_DEBUG") != nullptr)
+                    {
+                        std::fprintf(stderr, "trial %d fold %d split %d fragile %d:", int(trial), int(fold), isplit, int(v.fragile));
+                        for (tensor_size_t k = 0; k < p.outputs.size(); ++k)
+                        {
+                            std::fprintf(stderr, " [s%d out %.17g err %g]", int(idx(k)), p.outputs(k), v.errors[static_cast<size_t>(k)]);
+                        }
+                        if (gres != nullptr)
+                        {
+                            for (const auto& w : gres->m_wlearners)
+                            {
+                                std::ostringstream os;
+                                w->write(os);
+                                std::fprintf(stderr, " {%s features", w->type_id().c_str());
+                                const auto fs = w->features();
+                                for (tensor_size_t q = 0; q < fs.size(); ++q)
+                                {
+                                    std::fprintf(stderr, " %d", int(fs(q)));
+                                }
+                                std::fprintf(stderr, "}");
+                            }
+                            const auto& st = gres->m_statistics;
+                            for (tensor_size_t r = 0; r < st.size<0>(); ++r)
+                            {
+                                std::fprintf(stderr, " (round %d:", int(r));
+                                for (tensor_size_t q = 0; q < st.size<1>(); ++q)
+                                {
+                                    std::fprintf(stderr, " %g", st(r, q));
+                                }
+                                std::fprintf(stderr, ")");
+                            }
+                        }
+                        std::fprintf(stderr, " stored mean %.17g; wlearners %d bias %.17g\n",
+                                     result.stats(trial, fold, isplit == 0 ? split_type::train : split_type::valid, value_type::errors).m_mean,
+                                     gres != nullptr ? int(gres->m_wlearners.size()) : -1, gres != nullptr && gres->m_bias.size() > 0 ? gres->m_bias(0) : 0.0);
+                    }
                     const auto estats = result.stats(trial, fold, isplit == 0 ? split_type::train : split_type::valid, value_type::errors);
                     const auto lstats = result.stats(trial, fold, isplit == 0 ? split_type::train : split_type::valid, value_type::losses);
                     outcome_t  local;
@@ -1184,7 +1231,13 @@ verdict_t check_mcase(const mcase_t& c, ctx_t& ctx)
             }
 
             const auto v = evaluate_preds(dataset, s.samples, *s.loss, own, s.target_kind);
-            if (!own.finite() || !all_finite(v.errors) || !all_finite(v.losses))
+            bool diverged = false;
+            for (tensor_size_t k = 0; k < own.outputs.size(); ++k)
+            {
+                diverged = diverged || std::fabs(own.outputs(k)) > 1e30;
+            }
+            ctx.label_if(diverged, "final-model-with-predictions-above-1e30(diverged)");
+            if (!own.finite() || diverged || !all_finite(v.errors) || !all_finite(v.losses))
             {
                 non_finite = true;
             }
@@ -1213,7 +1266,7 @@ verdict_t check_mcase(const mcase_t& c, ctx_t& ctx)
     if (non_finite)
     {
         // a diverged fit (e.g. overflowing exponential loss, un-normalised inputs): the statistics are NaN/inf on both sides
-        return verdict_t::discard("non-finite-model-or-statistics");
+        return verdict_t::discard("non-finite-or-diverged-model-or-statistics");
     }
 
     // ---- classes ---------------------------------------------------------------------------------------------
